@@ -113,7 +113,27 @@ class DelayEval(object):
                 v = self.rd.value_of_def(d, e.id)
                 if v is not None:
                     return self.ev(d, v)
+            if len(ds) > 1 and self.g.entry not in ds:
+                # several definitions (a cap applied under a condition): any of them may be the value
+                vals = []
+                for d in sorted(ds, key=lambda d_: getattr(d_.ast, 'lineno', 0)):
+                    v = self.rd.value_of_def(d, e.id)
+                    if v is None:
+                        raise Unsupported('name %s has a definition that is not a plain assignment' % e.id)
+                    vals.append(self.ev(d, v))
+                return self.join(vals)
             raise Unsupported('name %s has %d reaching definitions' % (e.id, len(ds)))
+        if isinstance(e, ast.IfExp):
+            arms = [a for a in (e.body, e.orelse) if not (isinstance(a, ast.Constant) and a.value is None)]
+            if arms:
+                return self.join([self.ev(n, a) for a in arms])
+        if isinstance(e, ast.Call) and isinstance(e.func, ast.Name) and e.func.id == 'float' and len(e.args) == 1 and not e.keywords \
+                and not run.types.name_types('float', self.g.ctx):
+            return self.ev(n, e.args[0])            # float(x) of a number is x
+        if isinstance(e, ast.Call) and U(e.func).rsplit('.', 1)[-1] in ('ldexp', 'exp2') and \
+                any(t.kind == 'ext' and t.name in ('math.ldexp', 'math.exp2') for t in run.types.call_targets(e, self.g.ctx)):
+            raise Unsupported('float-overflow: %s raises OverflowError once the exponent reaches 1024, which ends persist() by '
+                              'itself; use the integer power 2**retries' % U(e)[:40])
         if isinstance(e, ast.BinOp):
             if isinstance(e.op, ast.LShift) and isinstance(e.left, ast.Constant) and e.left.value == 1 \
                     and type(e.left.value) is int:
@@ -185,6 +205,20 @@ class DelayEval(object):
                                   'documented as floats) it raises TypeError / ValueError at the first back-off, which ends '
                                   'persist() by itself' % U(e.func))
         raise Unsupported('expression %s' % U(e))
+
+    def join(self, vals):
+        """Any of the values: lower bound = the least, upper bound = the greatest (expressible only when one upper bound is
+        min() over a subset of the other's forms, hence the larger)."""
+        lo = set()
+        for v in vals:
+            lo |= v[0].forms
+        hi = vals[0][1]
+        for v in vals[1:]:
+            if v[1].forms <= hi.forms:
+                hi = v[1]
+            elif not (hi.forms <= v[1].forms):
+                raise Unsupported('alternative definitions with incomparable upper bounds')
+        return (MinOf(lo), hi)
 
     def addm(self, a, b):
         return MinOf([x.add(y) for x in a.forms for y in b.forms])
